@@ -6,7 +6,7 @@ ASSUMPTIONS = ["theorem is about coq/Engine.v; tied to /repo by exact tree equal
 
 
 def run(ctx):
-    cov, viol = E.run_engine(ctx, "c03", ["plain", "flags"], 120, 3000, {"tree", "ends", "parse"}, small=(True, 8, 250))
+    cov, viol = E.run_engine(ctx, "c03", ["plain", "flags"], 120, 3000, {"tree", "ends", "parse", "build"}, small=(True, 8, 250))
     fcov, fviol = E.fold_sweep(ctx)
     cov["fold_sweep"] = fcov
     return {"coverage": cov, "violations": viol + fviol}
@@ -16,4 +16,4 @@ def search(ctx):
     c2 = dict(ctx)
     c2["tier"] = "thorough"
     c2["seed"] = ctx["seed"] + 7
-    return E.run_engine(c2, "c03s", ["plain", "flags"], 0, 1500, {"tree", "ends", "parse"})[1]
+    return E.run_engine(c2, "c03s", ["plain", "flags"], 0, 1500, {"tree", "ends", "parse", "build"})[1]
